@@ -36,6 +36,11 @@ DKI = "wannierberri/data_K/__init__.py"
 CORNER_METHODS = ("E_K_corners_tetra", "E_K_corners_parallel")
 
 
+def reachable_helpers_c33(idx, f):
+    from ..sem import reachable_helpers
+    return reachable_helpers(idx, f)
+
+
 def _rtok_owner(c: ast.Call, loopvars) -> Optional[str]:
     p = chain_parts(c.func)
     # [..., 'rvec', 'R_to_k']
@@ -210,7 +215,11 @@ def run(ctx) -> None:
             if m in c.methods:
                 nn = check_owner_consistency(ctx, r1, c.methods[m], want_slots=True)
                 if nn == 0:
-                    raise AnalysisError(f"{cname}.{m}: no `….rvec.R_to_k(…)` call found")
+                    # look one level down: private helpers that could not be inlined (early returns, comprehensions)
+                    for h_ in reachable_helpers_c33(idx, c.methods[m]):
+                        nn += check_owner_consistency(ctx, r1, h_, want_slots=True)
+                if nn == 0:
+                    r1.expect(False, "", c.methods[m], c.methods[m].node, f"{cname}.{m}: no `….rvec.R_to_k(…)` call found (also not in its private helpers)")
     # the two phase providers must be built from the object's own R-vectors
     for m in ("expdK_corners_tetra", "expdK_corners_parallel"):
         f = idx.function(DKR, f"Data_K_R.{m}")
@@ -274,6 +283,15 @@ def run(ctx) -> None:
             if prods:
                 break
         if not prods:
+            # a private helper of the class that builds the corner phase (possibly with an early `return None`)
+            for h_ in reachable_helpers_c33(idx, f):
+                pm_ = fctx(h_.node)[2]
+                for b_ in ast.walk(h_.node):
+                    if isinstance(b_, ast.BinOp) and isinstance(b_.op, ast.Mult) and not (isinstance(pm_.get(b_), ast.BinOp) and isinstance(pm_.get(b_).op, ast.Mult)):
+                        subs_ = [x for x in ast.walk(b_) if isinstance(x, ast.Subscript)]
+                        if len(subs_) == 3 and all(isinstance(x.slice, ast.Tuple) and len(x.slice.elts) == 3 for x in subs_):
+                            prods.append(_P(b_, getattr(b_, "lineno", 0)))
+        if not prods:
             r3.expect(False, "", f, f.node, f"{f.short}: phase product `e[ix,:,0]*e[iy,:,1]*e[iz,:,2]` not found")
         for s in prods:
             subs = [x for x in ast.walk(s.value) if isinstance(x, ast.Subscript)]
@@ -300,6 +318,31 @@ def run(ctx) -> None:
              "tetra phases are exp(+2πi R·v) over Kpoint.vertices_fullBZ, one row per vertex", ft, ft.node.body[-1],
              "tetrahedron corner phases are not exp(+2πi R·vertices_fullBZ) per vertex")
 
+    # ---------------------------------------------------------------- R33.5
+    # the corner energies of a spinor system are the eigenvalues of the full (interlaced) matrix: the eigenvalues of one spin block are not
+    # "the even (odd) bands" — band order is by energy, not by spin
+    r5 = ctx.rule("R33.5", "corner energies are eigenvalues of the whole spinor matrix, never per-spin eigenvalues put on alternate bands")
+    socc = idx.cls(DKS, "Data_K_soc")
+    n5 = 0
+    for m_ in socc.methods.values():
+        for st_ in stmts(m_.node):
+            if isinstance(st_, ast.Assign) and len(st_.targets) == 1 and isinstance(st_.targets[0], ast.Subscript) \
+                    and any(isinstance(c_, ast.Call) and call_name(c_).split(".")[-1] in ("eigvalsh", "eigvals", "eigh") for c_ in ast.walk(st_.value)):
+                n5 += 1
+                r5.instance(f"{m_.short}: {norm1(st_, 70)}")
+                slots = stride2_slots(st_.targets[0])
+                r5.check(not slots, "eigenvalues are stored on a whole band axis", m_, st_,
+                         f"`{norm1(st_, 90)}` writes eigenvalues of a spin block onto every second band (offsets {slots}): the i-th corner band is then not the "
+                         f"i-th eigenvalue of the spinor Hamiltonian at the corner, while the centre energies are sorted — tetrahedron weights mix bands")
+    for m_ in socc.methods.values():
+        for st_ in stmts(m_.node):
+            if isinstance(st_, ast.Return) and st_.value is not None and any(isinstance(c_, ast.Call) and call_name(c_).split(".")[-1] in ("eigvalsh", "eigvals", "eigh")
+                                                                             for c_ in ast.walk(st_.value)):
+                n5 += 1
+                r5.instance(f"{m_.short}: {norm1(st_, 70)}")
+                r5.ok(f"{m_.short}: eigenvalues of a whole matrix are returned")
+    r5.expect(n5 >= 1, "eigenvalue stores located", f"{DKS}:Data_K_soc", socc.node, f"Data_K_soc: no store of eigenvalues into a corner array found")
+
     # ---------------------------------------------------------------- R33.4
     r4 = ctx.rule("R33.4", "band selection and phonon map applied to corner energies", min_instances=6)
     for rel, cname in ((DKR, "Data_K_R"), (DKS, "Data_K_soc"), (DKK, "Data_K_k")):
@@ -309,6 +352,7 @@ def run(ctx) -> None:
             if f is None:
                 continue
             r4.instance(f.short)
+            f = inline_private_helpers(idx, f)
             cfg, du, pm = fctx(f)
             rets = [s for s in stmts(f.node) if isinstance(s, ast.Return)]
             for rt in rets:
@@ -335,6 +379,9 @@ def _only_raises(fn: ast.AST) -> bool:
 from ..selftest import V  # noqa: E402
 
 SELFTEST = [
+    V("per-spin eigenvalues written to alternate bands (seeded C33-m3)", DKS, "            _Ecorners[:, iv, :] = np.linalg.eigvalsh(_HH_K_full)\n",
+      "            _Ecorners[:, iv, 0::2] = np.linalg.eigvalsh(_HH_K_full[:, 0::2, 0::2])\n            _Ecorners[:, iv, 1::2] = np.linalg.eigvalsh(_HH_K_full[:, 1::2, 1::2])\n",
+      "fire", "R33.5"),
     V("k.p corner cell taken from the initial grid (seeded C33-m4)", DKK, "        dK = self.Kpoint.dK_fullBZ\n", "        dK = 1. / self.grid.dense\n", "fire", "R33.3"),
     V("down-spin tetra phases taken from the up channel (original defect)", DKS,
       "expdK_down = self.data_K_down.expdK_corners_tetra", "expdK_down = self.data_K_up.expdK_corners_tetra", "fire", "R33.1"),
